@@ -216,7 +216,7 @@ func planC04(p *propDef, tier string, seed uint64, n int) []*Case {
 		sc := scen.GenCrawl(t, scen.CrawlOpts{Prop: "C04", MinSeeds: 3, MaxSeeds: 8, Small: true, Hops: true, RateLimit: -1})
 		sc.Cfg.Proxy = false
 		sc.Cfg.AsyncWARC = false
-		sc.Cfg.Seencheck = i%3 == 2 // mostly off: with it on, a seed recorded as seen before the kill is skipped after restart
+		sc.Cfg.Seencheck = i%2 == 1 // with it on, a seed recorded as seen before the kill is skipped after restart (known finding)
 		if sc.Cfg.MaxHops == 0 && i%2 == 0 {
 			sc.Cfg.MaxHops = 1
 		}
